@@ -3,7 +3,7 @@
 (* and the edge emitter: one JSON line per generated transition.                                  *)
 EXTENDS ListSeq
 IdxQuick    == -5 .. 5
-IdxThorough == -7 .. 7
+IdxThorough == -6 .. 6
 ObsEmit(op, args, ret, post) ==
     PrintT(ToJson([pre |-> Pre, op |-> op, args |-> args, ret |-> ret, post |-> post]))
 ================================================================================
